@@ -19,6 +19,7 @@ import (
 	"github.com/nspcc-dev/neofs-node/pkg/local_object_storage/shard/mode"
 	"github.com/nspcc-dev/neofs-node/pkg/local_object_storage/writecache"
 	apistatus "github.com/nspcc-dev/neofs-sdk-go/client/status"
+	"go.etcd.io/bbolt"
 	"github.com/nspcc-dev/neofs-sdk-go/object"
 	oid "github.com/nspcc-dev/neofs-sdk-go/object/id"
 )
@@ -70,12 +71,22 @@ func (s *slowStor) cached(a oid.Address) bool {
 	if wc == nil {
 		return false
 	}
-	_, _, _, dir, err := writecache.VerifState(wc)
-	if err != nil {
+	has, known := writecache.VerifHasFile(wc, a)
+	return has && known
+}
+
+// goneNow: the cache file is certainly absent
+func (s *slowStor) goneNow(a oid.Address) bool {
+	sh := s.sh.Load()
+	if sh == nil {
 		return false
 	}
-	_, ok := dir[a]
-	return ok
+	wc := shard.VerifWCWriteCache(sh)
+	if wc == nil {
+		return false
+	}
+	has, known := writecache.VerifHasFile(wc, a)
+	return known && !has
 }
 
 func (s *slowStor) Put(a oid.Address, d []byte) error {
@@ -88,7 +99,7 @@ func (s *slowStor) Put(a oid.Address, d []byte) error {
 	}
 	err := s.Storage.Put(a, d)
 	s.pause() // object is in both places now: readers race with the flusher's cache delete
-	if before && !s.cached(a) {
+	if before && s.goneNow(a) {
 		s.orderBad.Add(1)
 	}
 	return err
@@ -108,7 +119,7 @@ func (s *slowStor) PutBatch(m map[oid.Address][]byte) error {
 	err := s.Storage.PutBatch(m)
 	s.pause()
 	for a := range m {
-		if before[a] && !s.cached(a) {
+		if before[a] && s.goneNow(a) {
 			s.orderBad.Add(1)
 		}
 	}
@@ -171,7 +182,7 @@ func runC16(cs *c16Case, seed uint64) {
 	mainSt := fstree.New(fstree.WithPath(dir+"/blob"), fstree.WithDepth(0))
 	st := &slowStor{Storage: mainSt, r: &rng{s: r.next()}, failPct: cs.FailPct, idx: idx}
 	sh := shard.New(
-		shard.WithMetaBaseOptions(meta.WithPath(dir+"/meta"), meta.WithEpochState(epoch0{}), meta.WithMaxBatchDelay(time.Microsecond)),
+		shard.WithMetaBaseOptions(meta.WithPath(dir+"/meta"), meta.WithEpochState(epoch0{}), meta.WithMaxBatchDelay(time.Microsecond), meta.WithBoltDBOptions(&bbolt.Options{NoSync: true, NoFreelistSync: true})),
 		shard.WithWriteCache(true),
 		shard.WithWriteCacheOptions(
 			writecache.WithPath(dir+"/wc"),
@@ -231,6 +242,9 @@ func runC16(cs *c16Case, seed uint64) {
 				if err == nil {
 					acked[i].Store(true)
 					break
+				}
+				if os.Getenv("VERIF_DEBUG") != "" {
+					println("put error:", err.Error())
 				}
 				if stop.Load() {
 					return
@@ -369,8 +383,11 @@ func runC16(cs *c16Case, seed uint64) {
 		}
 	}
 	if wc := shard.VerifWCWriteCache(sh); wc != nil {
-		_, _, _, d, _ := writecache.VerifState(wc)
-		cs.LeftInWC = len(d)
+		for i := range objs {
+			if has, _ := writecache.VerifHasFile(wc, objs[i].addr); has {
+				cs.LeftInWC++
+			}
+		}
 	}
 	cs.CachePut, cs.Failed, cs.OrderBad = st.puts.Load(), st.failed.Load(), st.orderBad.Load()
 	if cs.Bad == nil {
